@@ -32,7 +32,14 @@ def configure():
     bdir = os.path.join(scratch_root(), 'cfg')
     cmd = ['cmake', '-S', REPO, '-B', bdir, '-G', 'Ninja', '-DBUILD_SHARED=OFF', '-DBUILD_TESTS=OFF',
            '-DBUILD_EXAMPLES=OFF', '-DBUILD_INTERNAL_TESTS=OFF', '-DCMAKE_BUILD_TYPE=Release', '-DCMAKE_EXPORT_COMPILE_COMMANDS=ON']
-    p = subprocess.run(cmd, stdout=subprocess.PIPE, stderr=subprocess.STDOUT, text=True)
+    for attempt in range(3):
+        p = subprocess.run(cmd, stdout=subprocess.PIPE, stderr=subprocess.STDOUT, text=True)
+        if p.returncode == 0:
+            break
+        # seen under heavy load: cmake's compiler-feature probe fails spuriously; retry from a clean directory
+        shutil.rmtree(bdir, ignore_errors=True)
+        import time
+        time.sleep(2 + 3 * attempt)
     if p.returncode != 0:
         raise ConfigureError('cmake configure failed:\n' + p.stdout[-2000:])
     cc = json.load(open(os.path.join(bdir, 'compile_commands.json')))
